@@ -1,66 +1,14 @@
 (* Shape.v — the MonthShape methods (as translated) against closed forms on the private shape value,
    for every well-formed shape and every u32 argument; plus the enumeration structure
    (the k-th existing day is strictly increasing in k and onto the set of existing days). *)
-From JV Require Import Sem Gen Spec.
+From JV Require Import Sem Gen Spec SpecX.
 From JV.Proofs Require Import SpecFacts.
 Open Scope Z_scope.
 Ltac Zify.zify_post_hook ::= Z.to_euclidean_division_equations.
-
-Definition WfShape (s : inner_MonthShape) : Prop :=
-  match s with
-  | inner_MonthShape_Normal mx => 1 <= mx <= 31
-  | inner_MonthShape_Headless mn mx => 2 <= mn <= mx /\ mx <= 31
-  | inner_MonthShape_Tailless mx nat => 1 <= mx < nat /\ nat <= 31
-  | inner_MonthShape_Gapped gs ge mx => 2 <= gs <= ge /\ ge < mx /\ mx <= 31
-  end.
-
-Definition sh_len (s : inner_MonthShape) : Z :=
-  match s with
-  | inner_MonthShape_Normal mx => mx
-  | inner_MonthShape_Headless mn mx => mx - mn + 1
-  | inner_MonthShape_Tailless mx _ => mx
-  | inner_MonthShape_Gapped gs ge mx => mx - (ge - gs + 1)
-  end.
-Definition sh_in (s : inner_MonthShape) (d : Z) : bool :=
-  match s with
-  | inner_MonthShape_Normal mx | inner_MonthShape_Tailless mx _ => (1 <=? d) && (d <=? mx)
-  | inner_MonthShape_Headless mn mx => (mn <=? d) && (d <=? mx)
-  | inner_MonthShape_Gapped gs ge mx => (1 <=? d) && (d <=? mx) && negb ((gs <=? d) && (d <=? ge))
-  end.
 (* the k-th existing day, 1 <= k <= sh_len *)
-Definition sh_nth (s : inner_MonthShape) (k : Z) : Z :=
-  match s with
-  | inner_MonthShape_Normal _ | inner_MonthShape_Tailless _ _ => k
-  | inner_MonthShape_Headless mn _ => k + mn - 1
-  | inner_MonthShape_Gapped gs ge _ => if k <? gs then k else k + (ge - gs + 1)
-  end.
 (* position of an existing day *)
-Definition sh_ord (s : inner_MonthShape) (d : Z) : Z :=
-  match s with
-  | inner_MonthShape_Normal _ | inner_MonthShape_Tailless _ _ => d
-  | inner_MonthShape_Headless mn _ => d - mn + 1
-  | inner_MonthShape_Gapped gs ge _ => if d <? gs then d else d - (ge - gs + 1)
-  end.
-Definition sh_first (s : inner_MonthShape) : Z := match s with inner_MonthShape_Headless mn _ => mn | _ => 1 end.
-Definition sh_last (s : inner_MonthShape) : Z :=
-  match s with
-  | inner_MonthShape_Normal mx | inner_MonthShape_Headless _ mx | inner_MonthShape_Tailless mx _ | inner_MonthShape_Gapped _ _ mx => mx
-  end.
 (* natural length and the removed range *)
-Definition sh_natural (s : inner_MonthShape) : Z :=
-  match s with inner_MonthShape_Tailless _ nat => nat | _ => sh_last s end.
-Definition sh_gap (s : inner_MonthShape) : option (Z * Z) :=
-  match s with
-  | inner_MonthShape_Normal _ => None
-  | inner_MonthShape_Headless mn _ => Some (1, mn - 1)
-  | inner_MonthShape_Tailless mx nat => Some (mx + 1, nat)
-  | inner_MonthShape_Gapped gs ge _ => Some (gs, ge)
-  end.
 (* the error classification of a day request *)
-Definition sh_day_err (y : Z) (m : Month) (s : inner_MonthShape) (d : Z) : Result Z DateError :=
-  if sh_in s d then Ok (sh_ord s d)
-  else if (1 <=? d) && (d <=? sh_natural s) then Err (DateError_SkippedDate y m d)
-  else Err (DateError_DayOutOfRange y m d (sh_first s) (sh_last s)).
 
 (* ------------------------------------------------------------------ enumeration structure *)
 Ltac shcbn := cbn [WfShape sh_len sh_in sh_nth sh_ord sh_first sh_last sh_natural sh_gap] in *.
